@@ -211,6 +211,7 @@ type c05Exported struct {
 	gates        int
 	ssaText      string
 	constsTabled bool
+	hasNative    bool
 	cacheHits    int
 	untabled     []string
 	outBits      []int
@@ -233,7 +234,11 @@ func c05Export(src string, sizes [][]int, opt c05StreamOpt) (ex *c05Exported, er
 		params.MaxLoopUnroll = opt.maxUnroll
 	}
 	defer params.Close()
-	prog, _, err := compiler.New(params).CompileSSA("{data}", strings.NewReader(src), sizes)
+	source := "{data}"
+	if opt.source != "" {
+		source = opt.source
+	}
+	prog, _, err := compiler.New(params).CompileSSA(source, strings.NewReader(src), sizes)
 	if err != nil {
 		return nil, err
 	}
@@ -365,6 +370,7 @@ func c05Export(src string, sizes [][]int, opt c05StreamOpt) (ex *c05Exported, er
 					os = append(os, int(a.Type.Bits))
 				}
 				idx = addCirc(instr.Circ, instr.Circ.Inputs.Size(), instr.Circ.Outputs.Size(), is, os)
+				ex.hasNative = true
 				circIdx[instr.Circ] = idx
 			}
 			ci = idx
